@@ -545,7 +545,13 @@ func writeEvidence(vd, id, tier string, seed int, all []EvObl, results []*Harnes
 		ev["coverage"].(map[string]interface{})[k] = v
 	}
 	data, _ := json.MarshalIndent(ev, "", " ")
-	os.WriteFile(filepath.Join(vd, "evidence", id+".json"), data, 0o644)
+	evDir := filepath.Join(vd, "evidence")
+	if d := os.Getenv("GOVC_EVIDENCE_DIR"); d != "" {
+		// runs against a deliberately changed tree (seeded changes) keep their evidence apart
+		evDir = d
+	}
+	os.MkdirAll(evDir, 0o755)
+	os.WriteFile(filepath.Join(evDir, id+".json"), data, 0o644)
 }
 
 // tryReplay is implemented in replay.go
